@@ -3,6 +3,8 @@
 package values
 
 import (
+	"fmt"
+
 	adminapi "github.com/onosproject/onos-api/go/onos/config/admin"
 	configapi "github.com/onosproject/onos-api/go/onos/config/v2"
 	"github.com/onosproject/onos-config/internal/verifrt"
@@ -60,9 +62,13 @@ func vJSONIsString(native *configapi.TypedValue, rfc bool) bool {
 	if !ok {
 		return false
 	}
-	_, isStr := root["x"].(string)
+	str, isStr := root["x"].(string)
+	vLastJSONString = str
 	return isStr
 }
+
+// the JSON string of the leaf seen by the last vJSONIsString
+var vLastJSONString string
 
 // VerifC17Int: int64 values of every width survive; RFC 7951: 64-bit integers are JSON strings
 func VerifC17Int() {
@@ -78,7 +84,11 @@ func VerifC17Int() {
 	s, ok := sbv.Value.(*gnmi.TypedValue_IntVal)
 	verifrt.Assert(ok && s.IntVal == v, "int-value-sent-unchanged")
 	rfc := verifrt.NondetBool("rfc7951")
-	verifrt.Assert(vJSONIsString(native, rfc) == (rfc && width > 32), "int-json-type")
+	isStr := vJSONIsString(native, rfc)
+	verifrt.Assert(isStr == (rfc && width > 32), "int-json-type")
+	if isStr {
+		verifrt.Assert(vLastJSONString == fmt.Sprintf("%d", v), "int-json-text-is-the-decimal-of-the-value")
+	}
 }
 
 // VerifC17Uint
@@ -95,7 +105,11 @@ func VerifC17Uint() {
 	s, ok := sbv.Value.(*gnmi.TypedValue_UintVal)
 	verifrt.Assert(ok && s.UintVal == v, "uint-value-sent-unchanged")
 	rfc := verifrt.NondetBool("rfc7951")
-	verifrt.Assert(vJSONIsString(native, rfc) == (rfc && width > 32), "uint-json-type")
+	isStr := vJSONIsString(native, rfc)
+	verifrt.Assert(isStr == (rfc && width > 32), "uint-json-type")
+	if isStr {
+		verifrt.Assert(vLastJSONString == fmt.Sprintf("%d", v), "uint-json-text-is-the-decimal-of-the-value")
+	}
 }
 
 // VerifC17Scalars: string / ascii / bool / bytes / decimal64
@@ -145,4 +159,76 @@ func VerifC17Scalars() {
 			_ = native
 		}
 	}
+}
+
+// VerifC17LeafListUint: a leaf-list of two uint64 elements of every width survives the journey; under RFC 7951 the
+// elements of a 64-bit leaf-list are JSON strings holding the decimal text of the UNSIGNED value
+func VerifC17LeafListUint() {
+	rw, width := vModelPath()
+	v0, v1 := verifrt.NondetUint64("v0"), verifrt.NondetUint64("v1")
+	in := &gnmi.TypedValue{Value: &gnmi.TypedValue_LeaflistVal{LeaflistVal: &gnmi.ScalarArray{Element: []*gnmi.TypedValue{
+		{Value: &gnmi.TypedValue_UintVal{UintVal: v0}}, {Value: &gnmi.TypedValue_UintVal{UintVal: v1}}}}}}
+	native, back, sbv := vRoundTrip(in, rw)
+	if native == nil || back == nil || sbv == nil {
+		return
+	}
+	verifrt.Cover("converted")
+	for _, out := range []*gnmi.TypedValue{back, sbv} {
+		ll, ok := out.Value.(*gnmi.TypedValue_LeaflistVal)
+		verifrt.Assert(ok && ll.LeaflistVal != nil && len(ll.LeaflistVal.Element) == 2, "leaflist-shape-unchanged")
+		if ok && ll.LeaflistVal != nil && len(ll.LeaflistVal.Element) == 2 {
+			e0, ok0 := ll.LeaflistVal.Element[0].Value.(*gnmi.TypedValue_UintVal)
+			e1, ok1 := ll.LeaflistVal.Element[1].Value.(*gnmi.TypedValue_UintVal)
+			verifrt.Assert(ok0 && ok1 && e0.UintVal == v0 && e1.UintVal == v1, "leaflist-uint-elements-unchanged")
+		}
+	}
+	rfc := verifrt.Fork("rfc7951", 2) == 1
+	doc, err := tree.BuildTree([]*configapi.PathValue{{Path: "/x", Value: *native}}, rfc)
+	verifrt.Assert(err == nil, "tree-builds")
+	if err != nil {
+		return
+	}
+	root, ok := verifrt.JSONValue(doc).(map[string]interface{})
+	verifrt.Assert(ok, "document-is-an-object")
+	if !ok {
+		return
+	}
+	if rfc && width > 32 {
+		strs, isStrs := vStrElems(root["x"])
+		verifrt.Assert(isStrs && len(strs) == 2, "leaflist-json-elements-are-strings")
+		if isStrs && len(strs) == 2 {
+			verifrt.Assert(strs[0] == fmt.Sprintf("%d", v0) && strs[1] == fmt.Sprintf("%d", v1), "leaflist-json-text-is-the-unsigned-decimal")
+		}
+	} else if nums, isNums := root["x"].([]uint64); isNums {
+		// (the symbolic run sees the value handed to the encoder; a native replay sees decoded JSON numbers, which
+		// are float64 and not compared here)
+		verifrt.Assert(len(nums) == 2 && nums[0] == v0 && nums[1] == v1, "leaflist-json-numbers-unchanged")
+	} else {
+		l, isList := root["x"].([]interface{})
+		verifrt.Assert(isList && len(l) == 2, "leaflist-json-elements-are-numbers")
+		for _, e := range l {
+			_, isStr := e.(string)
+			verifrt.Assert(!isStr, "leaflist-json-elements-are-numbers")
+		}
+	}
+}
+
+// vStrElems: a JSON array of strings, as handed to the encoder ([]string) or as decoded from the document
+func vStrElems(v interface{}) ([]string, bool) {
+	if s, ok := v.([]string); ok {
+		return s, true
+	}
+	l, ok := v.([]interface{})
+	if !ok {
+		return nil, false
+	}
+	out := make([]string, 0, len(l))
+	for _, e := range l {
+		s, isStr := e.(string)
+		if !isStr {
+			return nil, false
+		}
+		out = append(out, s)
+	}
+	return out, true
 }
